@@ -22,6 +22,9 @@ def run(rep, idx, tier):
     rep.require("C05.7", 2)
     rep.require("C05.8", 3)
     rep.require("C05.9", 3)
+    rep.require("C05.10", 2)
+    from . import glue as _g
+    _g.reset_discipline(rep, "C05.10", idx, ["csr/bus:Multiplexer", "csr/bus:Multiplexer._Shadow.Chunk"])
     c = get_ctx(idx, "csr:Multiplexer.elaborate")
     rep.analysed(c.fi.site)
     rep.count("drivers", len(c.t.drivers))
